@@ -82,7 +82,7 @@ fn address(r: &mut Rng, focus: Focus) -> E {
         5 => E::Bytes(addr_bytes(0xD4)),
         6 => E::Hash(vec![1; *r.pick(&[0usize, 27, 29, 32])]),
         7 => E::Address(vec![0x60; *r.pick(&[0usize, 1, 28, 30])]),
-        _ => E::String("addr_test1vz".into()),
+        _ => E::String(if r.chance(1, 2) { "addr_test1vz".to_string() } else { "アドレス".repeat(12 + r.below(20) as usize) }),
     }
 }
 
@@ -225,7 +225,7 @@ pub fn gen_tx(r: &mut Rng, focus: Focus) -> tir::Tx {
     let n_burn = match focus { Focus::C08 => r.below(2), Focus::C10 => r.below(2), _ => if r.chance(1, 4) { 1 } else { 0 } } as usize;
     let mints: Vec<_> = (0..n_mint).map(|_| { let p = *r.pick(&pols); mk_mint(r, p) }).collect();
     let mut burns: Vec<_> = (0..n_burn).map(|_| { let p = if focus == Focus::C10 { 0x11 } else { *r.pick(&pols) }; mk_mint(r, p) }).collect();
-    if focus == Focus::C10 && !mints.is_empty() && r.chance(1, 3) {
+    if (focus == Focus::C10 || focus == Focus::C08) && !mints.is_empty() && r.chance(1, if focus == Focus::C08 { 6 } else { 3 }) {
         // burn exactly what is minted: the mint field cancels to nothing
         burns = mints.iter().map(|m| tir::Mint { amount: m.amount.clone(), redeemer: m.redeemer.clone() }).collect();
     }
@@ -284,7 +284,9 @@ pub fn gen_tx(r: &mut Rng, focus: Focus) -> tir::Tx {
         (0..1 + r.below(2))
             .map(|_| tir::Metadata {
                 key: E::Number(if focus == Focus::C02 && r.chance(1, 3) { boundary(r) } else { r.below(5) as i128 }),
-                value: match r.below(3) {
+                value: match r.below(if focus == Focus::C14 { 5 } else { 3 }) {
+                    3 => E::List(vec![E::String("こんにちは世界、これは長いメモです。".repeat(1 + r.below(4) as usize))]),
+                    4 => E::String("żółć ".repeat(30)),
                     0 => E::String("note".into()),
                     1 => E::Bytes(vec![1, 2, 3]),
                     _ => int_expr(r, if focus == Focus::C02 { focus } else { Focus::C10 }, depth.min(1)),
